@@ -896,3 +896,144 @@ Proof.
     apply (steps_inv ex_params [ERestart 1] st2 std); [|reflexivity|exact Ed].
     eapply canon_run_inv; [exact HI1|exact H4|exact E2].
 Qed.
+
+(** ** a LOST member: failure detected, replacement scheduled (FleetLostProofs.v)
+    [Lost L st]: nothing is wrong with the fleet except that the members [L] (shard, replica id) are lost - current
+    members whose NodeHost is up but holds no data of them: they never run and never report again, and cannot be
+    restored.  In detail: the invariant; every NodeHost up; Drummer's view of every shard at the current membership
+    version and every member it shows has reported at least once (no joiner); every member that is not lost runs; at
+    most one lost member per shard, and its shard has exactly the defined number of members, at least 3 (so that the
+    quorum is intact and the leader's decision is repair, not restore); replica data exists for current members only
+    (no strays); every NodeHost Drummer knows is in the fleet; the pending requests are leftovers or restores, CREATE
+    requests are pending for NodeHosts only.  (Such a state is not reachable in the closed-loop model, which has no
+    "disk replaced" event; it satisfies the invariant, [C01_lost_inhabited].)
+    The class machinery is that of MendB with the clause "a member that has reported has its data" weakened to "... or
+    is lost" ([MendL]): closure under report(s), exec(s), catch-up, ticks is re-proved for it (FleetLostProofs.v Part 1).
+    Hypotheses on the environment, explicit in every statement: [spare] NodeHost per shard (C01_no_error_round);
+    the replica ids drawn in the round are fresh ([fresh_ok] at the state in which the leader schedules) and not 0 -
+    i.e. the outcome is not OCrash (the scheduler model admits OCrash whenever it decides ADD: the random source may
+    return id 0 and validateNodeHostRequest then panics); nticks * step < ttl.
+    PROVED, for every allowed outcome other than OCrash:
+      - [C01_lost_round_wait] (1): while no lost member has been silent for longer than ttl, a healthy round keeps the
+        fleet in Lost, moves the clock by nticks * step and leaves the lost members' last report times alone: the
+        rank ttl - (now - last report) decreases;
+      - [C01_lost_round] (2): in any healthy round from Lost the batch consists of KILLs and, for EVERY lost member
+        that has been silent for longer than ttl at the time of scheduling, the ADD of a replacement: its fence is the
+        current version, it is addressed to the NodeHost of a healthy member, its target is a fleet NodeHost that is
+        not the address of a member and carries no data of the shard, its replica id has no data anywhere - a LIVE
+        change request in the sense of MendB ([lchange], [vready]); the state after the round is in the lost-member
+        variant of MendB ([LostB]: LoopInv, MendL with the ADD among the pending requests);
+      - [C01_lost_detected]: for the lost member that has been silent longest, this happens within detect_rounds
+        healthy rounds.
+    NOT PROVED (what is missing for C01_heal_single_failure): the rounds after that, with the lost member still a
+    (failed) member.  The event closures exist for them ([LostB] is closed under reports / execs / catch-up / ticks,
+    FleetLostProofs lostb_reports, lostx_execs, lostx_learns, lostx_ticks: the ADD is applied or dropped); what is
+    missing is the leader's decision, round by round, for a view entry with a failed member that cannot be restored:
+    (a) the round in which the ADD is applied - the leader schedules from a view that is behind and decides ADD again
+    (stale fence: a leftover; a fresh id is drawn again); (b) view current, replacement waiting, lost member failed:
+    the decision is the join-CREATE (FleetMendProofs.mready_entry proves this only when NO member is failed);
+    (c) replacement reported: the decision is DELETE of the lost member (live DELETE: MendB's analysis applies once
+    the data clause is weakened there too); (d) DELETE applied, view behind; then the state is in Mend (no lost
+    member left) and C01_heal_mend applies.  Mend / MendP require every member that has reported to have its data
+    (md_members), so "surplus member allowed" does NOT cover the lost member; the clause is weakened in MendL for the
+    event closures, the scheduling analyses (mready_entry, mend_allowed, mendx_schedule) are not yet redone for it.
+    [C01_lost_instance] runs the model through all of it on the example. *)
+From Drummer.Proofs Require Import FleetLostProofs.
+
+Theorem C01_lost_round_wait :
+  forall (L : N -> N -> Prop) (P : params), (forall s rid, L s rid \/ ~ L s rid) ->
+  forall (st st' : fstate) (plogs : N -> bool) (nticks : nat) (o : outcome),
+  Lost L st -> (forall a, plogs a = true) -> N.of_nat nticks * p_step P < p_ttl P ->
+  (forall s, is_Some (f_hist st !! s) -> exists a, spare st a s) -> o <> OCrash ->
+  (forall st4, pre_schedule P plogs nticks st = Some st4 -> fresh_ok st4 (ESchedule o)) ->
+  healthy_round P plogs nticks o st = Some st' ->
+  (forall s f, L s f -> d_tick (f_db st) + N.of_nat nticks * p_step P - mem_tick st s f <= p_ttl P) ->
+  Lost L st' /\ f_hist st' = f_hist st /\ d_tick (f_db st') = d_tick (f_db st) + N.of_nat nticks * p_step P /\
+  (forall s f, L s f -> mem_tick st' s f = mem_tick st s f).
+Proof. exact lost_round_wait. Qed.
+Print Assumptions C01_lost_round_wait.
+
+Theorem C01_lost_round :
+  forall (L : N -> N -> Prop) (P : params), (forall s rid, L s rid \/ ~ L s rid) ->
+  forall (st st' : fstate) (plogs : N -> bool) (nticks : nat) (o : outcome),
+  Lost L st -> (forall a, plogs a = true) -> N.of_nat nticks * p_step P < p_ttl P ->
+  (forall s, is_Some (f_hist st !! s) -> exists a, spare st a s) -> o <> OCrash ->
+  (forall st4, pre_schedule P plogs nticks st = Some st4 -> fresh_ok st4 (ESchedule o)) ->
+  healthy_round P plogs nticks o st = Some st' ->
+  exists b, o = OBatch b /\ LostK L st' /\ f_hist st' = f_hist st /\
+    d_tick (f_db st') = d_tick (f_db st) + N.of_nat nticks * p_step P /\
+    (forall s f, L s f -> mem_tick st' s f = mem_tick st s f) /\
+    (forall a q, nonout st' a q -> lost_pending L P st st' a q) /\
+    (forall s f, L s f -> p_ttl P < d_tick (f_db st') - mem_tick st s f ->
+       exists a q, nonout st' a q /\ is_add q = true /\ q_shard q = s /\
+         lchange (nonout st') (f_hosts st') (f_hist st') a q /\ vready (f_db st') q).
+Proof. exact lost_round. Qed.
+Print Assumptions C01_lost_round.
+
+Theorem C01_lost_detected :
+  forall (L : N -> N -> Prop) (P : params), (forall s rid, L s rid \/ ~ L s rid) ->
+  forall (plogs : N -> bool) (nticks : nat) (s0 f0 : N),
+  (forall a, plogs a = true) -> N.of_nat nticks * p_step P < p_ttl P -> 0 < N.of_nat nticks * p_step P ->
+  forall (os : list outcome) (st st' : fstate),
+  Lost L st -> L s0 f0 -> (forall s f, L s f -> mem_tick st s0 f0 <= mem_tick st s f) ->
+  lost_hyps P plogs nticks os st -> (detect_rounds P nticks <= length os)%nat ->
+  healthy_rounds P plogs nticks os st = Some st' ->
+  exists os1 o os2 st1 st2, os = os1 ++ o :: os2 /\ healthy_rounds P plogs nticks os1 st = Some st1 /\ Lost L st1 /\
+    healthy_round P plogs nticks o st1 = Some st2 /\ LostK L st2 /\ f_hist st2 = f_hist st /\
+    (forall a q, nonout st2 a q -> lost_pending L P st1 st2 a q) /\
+    exists a q, nonout st2 a q /\ is_add q = true /\ q_shard q = s0 /\
+      lchange (nonout st2) (f_hosts st2) (f_hist st2) a q /\ vready (f_db st2) q.
+Proof. exact lost_detected_within. Qed.
+Print Assumptions C01_lost_detected.
+
+(** ** non-vacuity of the lost-member theorems *)
+(* the launched fleet of the logged run (Steady), with the disk of replica 1 of shard 1 replaced: the replica is gone,
+   NodeHost 1 is up.  The state is in Lost (invariant included); NodeHost 4 is spare; with the scheduler's canonical
+   outcomes (ids 7000 + round) the hypotheses on the environment hold in each of detect_rounds = 7 rounds; the ADD of the
+   replacement is scheduled in round 6 *)
+Definition ex_ll : list (N * N) := [(1, 1)].
+Definition ex_lost : option fstate := match ex_launched with Some st => Some (lose ex_ll st) | None => None end.
+Definition ex_lost_run (n : nat) : option (list outcome * fstate) :=
+  match ex_lost with Some st => canon_run ex_params (fun _ => true) 2 (fun i _ => 7000 + N.of_nat i) n st | None => None end.
+
+Example C01_lost_computed :
+  match ex_launched, ex_lost, ex_lost_run (detect_rounds ex_params 2), ex_lost_run 6 with
+  | Some st0, Some st, Some (os, st'), Some (_, st6) =>
+    init_okb st0 && mendb_restb st0 && view_current st0 && lostk_restb ex_ll st
+    && lost_hypsb ex_params (fun _ => true) 2 os st
+    && bool_decide (healthy_rounds ex_params (fun _ => true) 2 os st = Some st')
+    && existsb (fun aq : N * request => is_add aq.2 && (q_shard aq.2 =? 1) && lchangeb st6 aq.1 aq.2) (pendingl st6)
+  | _, _, _, _ => false
+  end = true.
+Proof. vm_compute. reflexivity. Qed.
+
+Example C01_lost_inhabited :
+  exists st os st', ex_lost = Some st /\ Lost (lostl ex_ll) st /\ length os = detect_rounds ex_params 2 /\
+    lost_hyps ex_params (fun _ => true) 2 os st /\ healthy_rounds ex_params (fun _ => true) 2 os st = Some st'.
+Proof.
+  pose proof C01_lost_computed as H. unfold ex_lost_run, ex_lost in *. destruct ex_launched as [st0|]; [|discriminate H].
+  destruct (canon_run ex_params (fun _ => true) 2 (fun i _ => 7000 + N.of_nat i) (detect_rounds ex_params 2) (lose ex_ll st0)) as [[os st']|] eqn:Er; [|discriminate H].
+  destruct (canon_run ex_params (fun _ => true) 2 (fun i _ => 7000 + N.of_nat i) 6 (lose ex_ll st0)) as [[os6 st6]|] eqn:Er6; [|discriminate H].
+  apply andb_true_iff in H as [H _]. apply andb_true_iff in H as [H Hr]. apply andb_true_iff in H as [H Hhyp].
+  apply andb_true_iff in H as [H Hk]. apply andb_true_iff in H as [H Hv]. apply andb_true_iff in H as [Hinit Hb].
+  apply bool_decide_eq_true in Hr.
+  exists (lose ex_ll st0), os, st'. split; [reflexivity|]. split.
+  - apply lost_restb_sound; [|exact Hk]. apply lose_lostb; [|exact Hv]. apply mendb_restb_sound; [|exact Hb]. exact (init_inv _ (init_okb_sound _ Hinit)).
+  - split; [|split; [exact (lost_hypsb_sound _ _ _ _ _ Hhyp)|exact Hr]].
+    clear -Er. revert Er. generalize (lose ex_ll st0). generalize (detect_rounds ex_params 2). intros n. revert os st'.
+    induction n as [|n IH]; intros os st' st Er; cbn [canon_run] in Er; [injection Er as <- _; reflexivity|].
+    destruct (canon_round ex_params (fun _ => true) 2 (fun _ => 7000 + N.of_nat n) st) as [[o st1]|]; [|discriminate Er].
+    destruct (canon_run ex_params (fun _ => true) 2 (fun i _ => 7000 + N.of_nat i) n st1) as [[os1 st2]|] eqn:E1; [|discriminate Er].
+    injection Er as <- _. cbn [length]. f_equal. exact (IH os1 st2 st1 E1).
+Qed.
+
+(* the whole pipeline on the example, by computation: 5 quiet rounds, the ADD (twice: the second one from the view that
+   is behind), the join-CREATE, the DELETE of the lost member; healed and Calm after 16 rounds *)
+Example C01_lost_instance :
+  match ex_lost, ex_lost_run 16 with
+  | Some st, Some (os, st') =>
+    bool_decide (healthy_rounds ex_params (fun _ => true) 2 os st = Some st') && healed ex_params st' && calm_restb st'
+    && negb (existsb (fun o => match o with OBatch _ => false | _ => true end) os)
+  | _, _ => false
+  end = true.
+Proof. vm_compute. reflexivity. Qed.
